@@ -661,8 +661,14 @@ impl Regex {
         Self::new_options(options)
     }
 
-    fn new_options(options: RegexOptions) -> Result<Regex> {
-        let raw_tree = Expr::parse_tree(&options.pattern)?;
+    fn new_options(mut options: RegexOptions) -> Result<Regex> {
+        // Case insensitivity is handled by our own parser (exactly as for a `(?i)` prefix), so
+        // that it also applies to the parts of the pattern that are not delegated, and so that
+        // an inner `(?-i:..)` is respected. The delegated sub-regexes must then be compiled as
+        // written.
+        let case_insensitive = options.syntaxc.get_case_insensitive();
+        options.syntaxc = options.syntaxc.case_insensitive(false);
+        let raw_tree = Parser::parse_with_flags(&options.pattern, case_insensitive)?;
 
         // wrapper to search for re at arbitrary start position,
         // and to capture the match bounds
